@@ -40,6 +40,7 @@ FragRows == <<
   << 220,  "M", <<252>>,     0,   <<85,776>>,   FALSE, "L",   FALSE, "U" >>,  \* U+00DC U DIAERESIS -> U+00FC
   << 223,  "D", <<>>,        0,   <<>>,         FALSE, "L",   FALSE, "U" >>,  \* U+00DF SHARP S (deviation)
   << 225,  "V", <<>>,        0,   <<97,769>>,   FALSE, "L",   FALSE, "U" >>,  \* U+00E1 a acute
+  << 225,  "V", <<>>,        0,   <<97,769>>,   FALSE, "L",   FALSE, "U" >>,  \* U+00E1 a acute
   << 226,  "V", <<>>,        0,   <<97,770>>,   FALSE, "L",   FALSE, "U" >>,  \* U+00E2 a circumflex
   << 228,  "V", <<>>,        0,   <<97,776>>,   FALSE, "L",   FALSE, "U" >>,  \* U+00E4 a diaeresis
   << 229,  "V", <<>>,        0,   <<97,778>>,   FALSE, "L",   FALSE, "U" >>,  \* U+00E5 a ring
@@ -53,6 +54,7 @@ FragRows == <<
   << 770,  "V", <<>>,        230, <<>>,         FALSE, "NSM", TRUE,  "T" >>,  \* U+0302 COMBINING CIRCUMFLEX
   << 776,  "V", <<>>,        230, <<>>,         FALSE, "NSM", TRUE,  "T" >>,  \* U+0308 COMBINING DIAERESIS
   << 778,  "V", <<>>,        230, <<>>,         FALSE, "NSM", TRUE,  "T" >>,  \* U+030A COMBINING RING ABOVE
+  << 773,  "V", <<>>,        230, <<>>,         FALSE, "NSM", TRUE,  "T" >>,  \* U+0305 COMBINING OVERLINE (class 230, composes with nothing: blocks)
   << 803,  "V", <<>>,        220, <<>>,         FALSE, "NSM", TRUE,  "T" >>,  \* U+0323 COMBINING DOT BELOW
   << 824,  "V", <<>>,        1,   <<>>,         FALSE, "NSM", TRUE,  "T" >>,  \* U+0338 COMBINING LONG SOLIDUS OVERLAY
   \* ---- Greek
